@@ -35,7 +35,10 @@ var noSynonyms = []spec.SynEntry{{Term: "a", Syns: nil}}
 // s2 then s1; each field introduces a term).
 // Kind 21: an ordinary text document whose text field (stored, doc values) is NAMED s1 - field
 // names and thesaurus names share one name space inside a segment.
-var NumSynDocKinds = 1 + 2*len(synEntries) + 2 + 2 + 2 + 1 + 1
+var NumSynDocKinds = 1 + 2*len(synEntries) + 2 + 2 + 2 + 1 + 1 + 1
+
+// Kind 23: thesaurus s1 with the EMPTY string as a left-hand term (and a second term).
+var emptyLHS = []spec.SynEntry{{Term: "", Syns: []string{"x", "y"}}, {Term: "b", Syns: []string{"z"}}}
 
 // Kind 22: thesaurus s1, a term one of whose synonyms is the EMPTY string.
 var emptySynonym = []spec.SynEntry{{Term: "a", Syns: []string{"", "x"}}, {Term: "b", Syns: []string{"y"}}}
@@ -44,6 +47,9 @@ func SynDoc(i int, kind int) spec.Doc {
 	id := fmt.Sprintf("d%d", i)
 	if kind == 0 {
 		return spec.Doc{ID: id, Fields: []spec.Field{{Name: "f", Len: 1, Stored: true, Value: []byte("x"), Toks: []spec.Tok{{Term: "x", Freq: 1}}}}}
+	}
+	if kind == 2*len(synEntries)+9 {
+		return spec.Doc{ID: id, IDLast: true, Fields: []spec.Field{{Name: "s1", Kind: spec.Synonym, Syn: emptyLHS}}}
 	}
 	if kind == 2*len(synEntries)+8 {
 		return spec.Doc{ID: id, IDLast: true, Fields: []spec.Field{{Name: "s1", Kind: spec.Synonym, Syn: emptySynonym}}}
@@ -104,7 +110,7 @@ func SynBatches(tier string, emit func(SynCase)) {
 		})
 	}
 	// three documents: every kind for thesaurus s1, a reduced set for s2 (in quick)
-	menu3 := []int{0, 1, 2, 3, 4, 5, 6, 7, 8, 10, 11, 15, 16, 17, 18, 19, 20, 21, 22}
+	menu3 := []int{0, 1, 2, 3, 4, 5, 6, 7, 8, 10, 11, 15, 16, 17, 18, 19, 20, 21, 22, 23}
 	if tier == "thorough" {
 		menu3 = nil
 		for k := 0; k < NumSynDocKinds; k++ {
